@@ -23,7 +23,7 @@ PENDING = {}
 
 CHECKS = {
  "C01": dict(
-   level=("fault_enumeration", "ONLY the fault-reachable slice of C01: well-formed projects whose input channels (workflow file, local action metadata, local reusable workflow, actionlint.yaml, stdin) and directory operations are hit by seeded disk faults (torn/zeroed/duplicated/swapped/bit-flipped/rewritten content, read errors, stat/getwd/listing errors, stdin errors and short reads) at chosen operations of a concurrent run; decided: no panic in any task, no deadlock, termination, exit status in {0,1,3}, status 3 for unreadable inputs. The 'all byte strings' quantifier of the property is input fuzzing and is not decided by this technique.", "DESIGN.md section 4 (C01)"),
+   level=("fault_enumeration", "ONLY the fault-reachable slice of C01: well-formed projects whose input channels (workflow file, local action metadata, local reusable workflow, actionlint.yaml, stdin) and directory operations are hit by seeded disk faults (torn/zeroed/duplicated/swapped/bit-flipped/rewritten content, read errors, stat/getwd/listing errors, stdin errors and short reads), by failing or flooding external tools, and by an output writer that fails from some byte on, at chosen operations of a concurrent run; decided: no panic in any task, no deadlock, termination, exit status in {0,1,3}, status 3 for unreadable inputs. The 'all byte strings' quantifier of the property is input fuzzing and is not decided by this technique.", "DESIGN.md section 4 (C01)"),
    note="Trusts: virtual disk fault model (Linux errno values, fs.PathError), watchdog for hangs. Not covered: crafted-input crashes that no fault produces (e.g. `timeout-minutes: !!float nan`, CR-only line endings) - see DESIGN.md sections 4 and 9.",
    technique="deterministic simulation with disk/stdin fault injection over seeded worlds and schedules; invariants: no panic/deadlock/hang, exit status rule"),
  "C15": dict(
